@@ -3,7 +3,7 @@ from __future__ import annotations
 
 from .. import dag, literature as lit
 from ..arr import Arr
-from ..pe import PE
+from ..pe import PE, PERaise
 from ..src import load
 
 LEVEL = "proof"
@@ -95,7 +95,33 @@ def run(chk):
                 chk.decide(ok, "qed-kernel-solves-dglap", fq.qname,
                            f"QED NS kernel does not solve the DGLAP equation with the QED-shifted beta function ({inst})",
                            where=fq.where, instance=inst, data={"witness": info}, how="DAG differentiation + PIT F_p")
-    chk.floor("kernel instances", n_inst, 12 + 16)
+    # the stepped form (several coupling steps, the same alpha_em in each): the product of the one-step kernels, each over ITS OWN
+    # interval of scales - decided with free intermediate points (coupling am, scale mm) so that it holds for any grid of steps
+    fx = src.func(f"{QNS}.exact")
+    am, mm = dag.sym("am"), dag.sym("mu2_mid")
+    old_geom = pe.ext.get("numpy.geomspace")
+    pe.ext["numpy.geomspace"] = lambda pe_, a, k: Arr.from_nested([a[0], mm, a[1]]) if pe_.as_index(k.get("num", a[2] if len(a) > 2 else 50)) == 3 else old_geom(pe_, a, k)
+    try:
+        for n in range(1, 5):
+            for m in (1, 2):
+                inst = f"order=({n},{m}),nf=4,two steps"
+                G = Arr.from_nested([[dag.sym(f"G{i}_{j}") for j in range(m + 1)] for i in range(n + 1)])
+                try:
+                    R2 = pe.call(fx.qname, [(n, m), G, Arr.from_nested([a0, am, a1]), Arr.from_nested([aem, aem]), 4, 2, mf, mt])
+                    late = pe.call(fq.qname, [(n, m), G, a1, am, aem, 4, mm, mt])
+                    early = pe.call(fq.qname, [(n, m), G, am, a0, aem, 4, mf, mm])
+                    ok, info = dag.is_zero_fp([dag.sub(dag.tonode(R2), dag.mul(dag.tonode(late), dag.tonode(early)))], chk.seed, k)
+                except PERaise as e:
+                    ok, info = False, {"error": str(e)}
+                n_inst += 1
+                chk.decide(ok, "qed-kernel-solves-dglap", fx.qname,
+                           f"the two-step QED NS kernel (a0, mu0) -> (am, mu_mid) -> (a1, mu1) with one alpha_em is not the product of the one-step "
+                           f"kernels over their own intervals: the pure-QED scale factor is then counted over overlapping intervals and the "
+                           f"stepped kernel is no solution of the evolution equation ({inst})", where=fx.where, instance=inst, data={"witness": info},
+                           how="PE with free intermediate points + PIT F_p")
+    finally:
+        pe.ext["numpy.geomspace"] = old_geom
+    chk.floor("kernel instances", n_inst, 12 + 16 + 8)
     chk.note(instances=n_inst, files=["src/eko/kernels/non_singlet.py", "src/eko/kernels/non_singlet_qed.py",
                                       "src/eko/kernels/evolution_integrals.py", "src/eko/kernels/as4_evolution_integrals.py"])
     chk.explanation = "ODE residual of the extracted closed-form kernels vanishes identically (all gamma_k, a1, a0, nf)."
